@@ -2,7 +2,9 @@
 //!
 //! Case: [fmt, ty, N, h0, ha_mode, ha_p, tail, m, item_0 .. item_{m-1}]
 //!   fmt  0 scripted Deserializer/SeqAccess (this file), 1 JSON text, 2 bincode,
-//!        3 serde_json::Value, 4 serialize (recording Serializer + bincode bytes)
+//!        3 serde_json::Value, 4 serialize (recording Serializer + bincode bytes),
+//!        5 the scripted Deserializer entered through Deserialize::deserialize_in_place (u8 / f64 only:
+//!          `place` holds N dummy values beforehand); the model runs it as fmt 0
 //!   ty   0 u8, 1 f64, 2 drop-tracked Tr (newtype TrD)
 //!   h0   what size_hint() says before anything is read: -1 = None, otherwise Some(h0)
 //!   ha_mode/ha_p   what size_hint() says when asked again after k next_element calls:
@@ -492,19 +494,23 @@ fn run<T: El, N: ArrayLength>(c: &Parsed, orc: &mut Vec<String>) -> Vec<i128> {
     // serializer cross-check for inputs that are a well-formed array: the format's own output is
     // the input of the deserialisation below (round trip)
     let wellformed = items.len() == N::USIZE && all_valid(items);
-    if wellformed && c.fmt != 0 {
+    if wellformed && c.fmt != 0 && c.fmt != 5 {
         let _ = ser_oracles::<T, N>(items, orc);
     }
     track::reset(1_000_000);
     let ctl = Ctl::default();
     let res: Result<Result<GenericArray<T, N>, String>, String> = catch(|| match c.fmt {
         0 => GenericArray::<T, N>::deserialize(ScriptDe { sc: &c.sc, ctl: &ctl }).map_err(|e| e.to_string()),
+        5 => {
+            let mut place: GenericArray<T, N> = GenericArray::from_iter((0..N::USIZE).map(|_| T::mk(0)));
+            <GenericArray<T, N> as Deserialize>::deserialize_in_place(ScriptDe { sc: &c.sc, ctl: &ctl }, &mut place).map(|()| place).map_err(|e| e.to_string())
+        }
         1 => serde_json::from_str::<GenericArray<T, N>>(&json_text::<T>(items)).map_err(|e| e.to_string()),
         2 => bincode::deserialize::<GenericArray<T, N>>(&bin_bytes::<T>(items)).map_err(|e| e.to_string()),
         _ => serde_json::from_value::<GenericArray<T, N>>(value_of::<T>(items)).map_err(|e| e.to_string()),
     });
     let during = track::log_from(0);
-    let polls = if c.fmt == 0 { ctl.calls.get() as i128 } else { -1 };
+    let polls = if c.fmt == 0 || c.fmt == 5 { ctl.calls.get() as i128 } else { -1 };
     let drops: Vec<i128> = track::drops_sorted(&during).iter().map(|x| *x as i128).collect();
     let mut obs = vec![];
     match res {
@@ -538,7 +544,7 @@ fn run<T: El, N: ArrayLength>(c: &Parsed, orc: &mut Vec<String>) -> Vec<i128> {
             obs.extend(&drops);
         }
     }
-    if c.fmt == 0 {
+    if c.fmt == 0 || c.fmt == 5 {
         if ctl.tuple_len.get() != Some(N::USIZE) {
             orc.push(format!("deserialize_tuple({}) expected, deserializer saw {:?}", N::USIZE, ctl.tuple_len.get()));
         }
@@ -672,6 +678,11 @@ fn scripted_cases(n: usize, ty: i128, full: bool, all_positions: bool) {
                 for tail in tails {
                     dist(&format!("scripted.N{}", n));
                     do_case(mk_case(0, ty, n, *h0, *mode, *p, *tail, &base));
+                    if ty < 2 {
+                        // the same script entered through deserialize_in_place
+                        dist("scripted.in_place");
+                        do_case(mk_case(5, ty, n, *h0, *mode, *p, *tail, &base));
+                    }
                     let pos = if rejecting && !full {
                         fault_positions(n, m, false).into_iter().take(1).collect()
                     } else {
